@@ -102,9 +102,6 @@ theorem C01_zero_pad_right (le : γ → γ → Bool) (op : α → β → γ) (a 
     countOf z (mapH le op a (b₁ ++ (y, 0) :: b₂)) = countOf z (mapH le op a (b₁ ++ b₂)) := by
   simp only [C01_convolution, wsum_append, wsum_cons, Nat.zero_mul, Nat.zero_add]
 
-/-- multiply every count by `k` -/
-def scaleH {δ} (k : Nat) (h : Hist δ) : Hist δ := h.map fun oc => (oc.1, k * oc.2)
-
 theorem wsum_scaleH {δ} (k : Nat) (h : Hist δ) (f : δ → Nat) : wsum (scaleH k h) f = k * wsum h f := by
   induction h with
   | nil => simp [scaleH, wsum]
